@@ -78,7 +78,7 @@ def exceptional(c):
         return False
     e1, e2 = c['e1'], c['e2']
     return {'op': e1 == e2 or e1 == -e2 or 0 in (e1, e2), 'rsub': e1 == e2 or e1 == -e2 or 0 in (e1, e2),
-            'double': e1 == 0, 'inv': e1 == 0, 'repeat': c['variant'].endswith('sec_base') or e1 == 0}.get(c['op'], False)
+            'double': e1 == 0, 'inv': e1 == 0, 'repeat': c['variant'].endswith('sec_base') or e1 == 0 or c['n'] == 0}.get(c['op'], False)
 
 
 def gen_cases(spec, rnd, quick, E=5):
